@@ -54,27 +54,42 @@ SELECT_INTO_DIALECTS = {"ansi", "tsql", "postgres", "redshift", "greenplum"}
 SUPPORTED_KINDS = {"insert", "insert_cols", "ctas", "create_view", "select_into", "update", "merge", "copy", "bare", "insert_values", "create_like"}
 
 
+GENERIC = [("where.in_subquery_comma_join", "KF-32"), ("where.subquery_setop_paren", "KF-33"), ("from.mixed_comma_join", "KF-01"),
+           ("select.scalar_subquery", "KF-02"), ("having.subquery", "KF-03"), ("update.where_subquery", "KF-04"), ("update.set_subquery", "KF-04")]
+# per-dialect blind spots: "<dialect>:<mechanism>" -> finding id (the mechanism is a risk tag of the AST, or kind:target / kind:source / kind:unsupported)
+DIALECT = {"clickhouse:where.subquery": "KF-14a", "clickhouse:from.mixed_comma_join_any": "KF-14a", "exasol:create_view:target": "KF-14b",
+           "impala:ctas:unsupported": "KF-14c", "exasol:create_like:source": "KF-14d"}
+
+
 def classify(stmt, dialect, exp, obs_read, obs_write, ds=None):
-    """-> (kf_id, what) or (None, None); only the narrow 'lost sources under one tagged mechanism' shape is recognised"""
+    """-> list of finding ids that together explain the deviation, or None.
+    Only 'sources lost under tagged AST mechanisms' (+ a listed per-dialect lost target/source) is recognised: any extra table,
+    any wrong target, any loss outside the tagged nodes stays a violation."""
     lost = set(exp["read"]) - set(obs_read)
     extra = set(obs_read) - set(exp["read"])
-    if extra or set(obs_write) != set(exp["write"]) or not lost:
+    if extra:
         return None
-    risk = sqlgen.risk(stmt, ds)
-    order = [("where.in_subquery_comma_join", "KF-32"), ("from.mixed_comma_join", "KF-01"), ("select.scalar_subquery", "KF-02"), ("having.subquery", "KF-03"),
-             ("update.where_subquery", "KF-04"), ("update.set_subquery", "KF-04")]
-    if dialect == "clickhouse":
-        order.append(("where.subquery", "KF-14a"))
-    remaining = set(lost)
-    hit = []
-    for tag, kfid in order:
-        r = set(risk.get(tag, []))
-        if remaining & r:
-            hit.append(kfid)
-            remaining -= r
-    if remaining:
-        return None
-    return hit[0] if hit else None
+    ids = []
+    if set(obs_write) != set(exp["write"]):
+        k = f"{dialect}:{stmt.kind}:target"
+        if obs_write == [] and k in DIALECT:
+            ids.append(DIALECT[k])
+        else:
+            return None
+    if lost:
+        risk = sqlgen.risk(stmt, ds)
+        remaining = set(lost)
+        if stmt.kind == "create_like" and f"{dialect}:create_like:source" in DIALECT:
+            ids.append(DIALECT[f"{dialect}:create_like:source"])
+            remaining -= set(exp["read"])
+        for tag, kfid in GENERIC + [(k.split(":", 1)[1], v) for k, v in DIALECT.items() if k.startswith(dialect + ":") and k.count(":") == 1]:
+            r = set(risk.get(tag, []))
+            if remaining & r:
+                ids.append(kfid)
+                remaining -= r
+        if remaining:
+            return None
+    return ids or None
 
 
 def run(tier):
@@ -113,7 +128,7 @@ def run(tier):
                 continue
             if et == "UnsupportedStatementException" and st.kind in SUPPORTED_KINDS:
                 run_.case(evidence.sha((case["sql"], d)), nontrivial=True)
-                run_.judge(b, "supported_kind_reported_unsupported", r["outcome"]["message"], kf_id="KF-14c" if (d, st.kind) in (("impala", "ctas"),) else None)
+                run_.judge(b, "supported_kind_reported_unsupported", r["outcome"]["message"], kf_id=DIALECT.get(f"{d}:{st.kind}:unsupported"))
                 continue
             if et == "UnsupportedStatementException":
                 rejected[d] = rejected.get(d, 0) + 1
@@ -145,12 +160,13 @@ def run(tier):
                                                                                      "intermediate": r["intermediate"], "cte": f["cte"]}}
         kfid = None
         # the public views must agree with the per-statement facts even under a known finding
-        if sorted(r["source"]) == sorted(obs_read) and sorted(r["target"]) == sorted(obs_write) or (set(obs_read) & set(obs_write)):
-            kfid = classify(st, d, exp, obs_read, obs_write)
-            if kfid is None and d == "exasol" and st.kind == "create_view" and obs_read == exp["read"] and obs_write == []:
-                kfid = "KF-14b"
-            if kfid is None and d == "exasol" and st.kind == "create_like" and obs_read == [] and obs_write == exp["write"]:
-                kfid = "KF-14d"
+        views_consistent = set(r["source"]) | set(r["target"]) == set(obs_read) | set(obs_write) and set(r["target"]) == set(obs_write)
+        if views_consistent:
+            ids = classify(st, d, exp, obs_read, obs_write)
+            if ids and all(run_.kf_listed(i) for i in ids):
+                kfid = ids[0]
+                for extra_id in ids[1:]:
+                    run_.counters["also_" + extra_id] += 1
         run_.judge(b, "table_lineage_differs", det, kf_id=kfid)
     run_.observe("extractors_seen", len(extractors))
     need = {"SelectExtractor", "CreateInsertExtractor", "CteExtractor", "UpdateExtractor", "MergeExtractor", "CopyExtractor", "NoopExtractor"}
